@@ -91,6 +91,24 @@ def opsAlg : List (String × OpFn) := [
   ("q.smul", do let a ← quat; let c ← rat; pure (flat (Quat.smul a c))),
   ("b.sdiv", do let a ← biquat; let c ← cx; let r ← liftR (Quat.sdivC a c); pure (flat r)),
   ("q.sdiv", do let a ← quat; let c ← rat; let r ← liftR (Quat.sdivR a c); pure (flat r)),
+  ("q.smul.self", do
+      let a ← quat
+      let k ← fin 4
+      pure (flat (Quat.smul a (a.get k)))),
+  ("q.sdiv.self", do
+      let a ← quat
+      let k ← fin 4
+      let r ← liftR (Quat.sdivR a (a.get k))
+      pure (flat r)),
+  ("b.smul.self", do
+      let a ← biquat
+      let k ← fin 4
+      pure (flat (Quat.smul a (a.get k)))),
+  ("b.sdiv.self", do
+      let a ← biquat
+      let k ← fin 4
+      let r ← liftR (Quat.sdivC a (a.get k))
+      pure (flat r)),
   ("q.addscalar", do
       let a ← quat
       let c ← rat
